@@ -6,12 +6,20 @@
   history  one long-lived Linter + one long-lived Orchestrator; generated histories of
            write / edit / delete / lint-file / lint-dir / lint-files steps; after every lint step
            the result must equal what a FRESH object returns for the same call on the same disk state.
+  constants  (in-process) DRY's duplicate-constant evidence: module-level ALL_CAPS constants whose names are related
+           exactly / by word order / by 1 or 2 edits / not at all (antonyms, single words, >2 edits), so that the
+           "similar" relation forms cliques, non-transitive chains, stars and islands; one name per file (matrix: every
+           3-name graph, all 6 file orders) or several per file (drawn 4-5 name trees, drawn orders); Python, TypeScript
+           and mixed projects; min_constant_occurrences 2 and 3.  Orchestrator.lint_files(order), `thailint dry <order>`,
+           a long-lived Orchestrator that sees every order in turn, and lint_directory over a copy created in another
+           order must all return the multiset of the canonical (sorted) order.
   effects  every linter command, sequential and --parallel, DRY storage modes and cache options:
            snapshot (type, size, mtime, sha256) of the project tree and a private TMPDIR before/after.
 """
 from __future__ import annotations
 
 import os
+import re
 import shutil
 import tempfile
 from collections import Counter
@@ -25,17 +33,22 @@ from vf.engine import Case, Failure, h
 from vf.project import Project
 
 ID = "C08"
-TECHNIQUE = "Hypothesis-generated call histories on one long-lived Linter/Orchestrator checked step by step against a fresh object (model-based, stateful); argument permutations x PYTHONHASHSEED in real subprocesses; file-system snapshot differential for side effects"
+TECHNIQUE = "Exhaustive file-order permutations over an enumerated matrix of constant-name relation graphs (in-process); Hypothesis-generated call histories on one long-lived Linter/Orchestrator checked step by step against a fresh object (model-based, stateful); argument permutations x PYTHONHASHSEED in real subprocesses; file-system snapshot differential for side effects"
 RULE = (
     "order: project with per-file and cross-file findings, drawn permutation of file arguments, hash seed, repetition; non-trivial = "
     "permutation != identity and >=1 cross-file violation. history: 3-12 steps over a pool of 6 paths x 3 content variants; non-trivial = "
-    ">=2 lint steps with an edit or delete of a file that contributed a violation in between and a cross-file rule involved. effects: "
+    ">=2 lint steps with an edit or delete of a file that contributed a violation in between and a cross-file rule involved. constants: "
+    "name-relation graph (derivation tree parent x op in same/swap/add1/add2/sub1/sub2/anto/far) x base (1, 2, 3 words) x language layout x "
+    "occurrence threshold, every / drawn file orders; non-trivial = >=2 duplicate-constant violations in the canonical order and >=2 orders. effects: "
     "command x mode matrix; non-trivial = the run reported >=1 violation. Distinct by step-kind sequence / permutation class / matrix cell."
 )
 ASSUMPTIONS = [
     "history compares against a fresh object on the same disk state (the statement's own oracle), never against a hand model",
     "configuration is fixed at construction of the long-lived objects, as documented",
     "effects: the project directory and a private TMPDIR/TEMP/TMP are the observed locations",
+    "constants: which names thai-lint groups is NOT prescribed (docs leave transitivity open) - only that the answer is the same for every file order",
+    "constants: the order of the locations inside a duplicate-constant message's 'Also found in: ...' list follows the lint order on the unchanged tree "
+    "(recorded deviation, const_msg); the list is compared as a set, everything else in the message literally",
 ]
 BUDGET_S = {"quick": 210, "thorough": 1500}
 
@@ -320,6 +333,188 @@ def orders(draw):
             "hashseed": draw(st.integers(0, 1000)), "reps": draw(st.integers(1, 2))}
 
 
+# ----------------------------------------------------------------------------------- related constants (DRY's third kind of cross-file evidence)
+
+# The DRY rule also groups module-level ALL_CAPS constants across files (on by default, docs/dry-linter.md "Duplicate
+# Constants Detection"): same name, same words in another order, or Levenshtein distance <= 2.  "Similar" is not transitive,
+# so a set of names is a GRAPH (clique, chain, star, separate islands, near-but-excluded antonyms / single words), and the
+# groups reported for it must not depend on the order in which the files - and so the names - reach the rule.
+CONST_BASES = ["MAX_TIMEOUT", "HTTP_POOL_SIZE", "LIMIT"]  # two words (with an antonym word), three words, one word (exact matching only)
+CONST_OPS = ["same", "swap", "add1", "add2", "sub1", "sub2", "anto", "far"]
+CONST_FILES = ["client", "server", "worker", "agent", "batch"]
+_ANTO = {"MAX": "MIN", "MIN": "MAX"}
+
+
+def _shift(ch, k):
+    return chr((ord(ch) - 65 + k) % 26 + 65) if ch.isalpha() else ch
+
+
+def derive(name, op, i):
+    """Name number i derived from an earlier name: how far apart the two are is the op (0 / word order / 1 / 2 / >2 edits)."""
+    words = name.split("_")
+    if op == "same":
+        return name
+    if op == "swap":
+        return "_".join(reversed(words))
+    if op == "add1":
+        return name + "S"
+    if op == "add2":
+        return name + "_" + "XYZQ"[i % 4]
+    if op == "sub1":
+        w = words[-1]
+        k = i % len(w)
+        return "_".join(words[:-1] + [w[:k] + _shift(w[k], 1 + i) + w[k + 1:]])
+    if op == "sub2":
+        w = words[-1]
+        return "_".join(words[:-1] + [w[:-2] + _shift(w[-2], 2 + i) + _shift(w[-1], 3 + i)]) if len(w) >= 2 else name + "QQ"
+    if op == "anto" and any(w in _ANTO for w in words):
+        return "_".join(_ANTO.get(w, w) for w in words)
+    return words[0] + "_" + ["RETRIES", "BUDGET", "WINDOW", "QUOTA"][i % 4]  # far (also: anto without an antonym word)
+
+
+def const_names(case):
+    names = [case["base"]]
+    for i, (parent, op) in enumerate(case["nodes"], start=1):
+        names.append(derive(names[parent % len(names)], op, i))
+    return names
+
+
+def const_files(case):
+    """name k lives in file assign[k]; a file's language is langs[file]; a name is declared once per file."""
+    names = const_names(case)
+    per_file = {}
+    for k, name in enumerate(names):
+        f = case["assign"][k] % len(CONST_FILES)
+        per_file.setdefault(f, [])
+        if name not in [n for n, _ in per_file[f]]:
+            per_file[f].append((name, 30 + k))
+    files = {}
+    for f, decls in sorted(per_file.items()):
+        stem = CONST_FILES[f]
+        if case["langs"][f % len(case["langs"])] == "py":
+            body = [f"{n} = {v}" for n, v in decls] + ["", "", f"def {stem}_value(scale):", f"    return scale * {decls[0][0]}"]
+            files[f"{stem}.py"] = "\n".join(body) + "\n"
+        else:
+            body = [f"export const {n} = {v};" for n, v in decls] + ["", f"export function {stem}Value(scale: number): number {{", f"    return scale * {decls[0][0]};", "}"]
+            files[f"{stem}.ts"] = "\n".join(body) + "\n"
+    return files
+
+
+_ALSO = re.compile(r"Also found in: (.*?)\.(?= (?:Consider|These) )")
+
+
+def const_msg(message):
+    """Recorded deviation (unchanged tree, independent of grouping): the 'Also found in: a, b' list of a duplicate-constant message
+    names the other locations in the order they were linted.  Only the ORDER inside that list is normalised - which locations and
+    names are listed, the file count and everything else in the message are still compared.  Where the list is cut after 3 locations
+    ("... and N more.") the shown subset follows the same lint order; then the number of other locations is compared."""
+    if not message.startswith(("Duplicate constant", "Similar constants found")):
+        return message
+    return _ALSO.sub(_also_sorted, message)
+
+
+def _also_sorted(m):
+    listed = m.group(1)
+    more = re.search(r"^(.*) and (\d+) more$", listed)
+    if more:  # only the first 3 other locations (in lint order) are shown: which ones is the same deviation - keep how many there are
+        return f"Also found in: {len(more.group(1).split(', ')) + int(more.group(2))} other locations."
+    return "Also found in: " + ", ".join(sorted(listed.split(", "))) + "."
+
+
+def cms(vs, root):
+    return Counter((k[0], k[1], k[2], k[3], const_msg(k[4])) for k in ms(vs, root).elements())
+
+
+def is_const_violation(k):
+    return k[0].startswith("dry.") and k[4].startswith(("Duplicate constant", "Similar constants found"))
+
+
+def check_constants(case) -> Case:
+    import itertools
+
+    failures, labels = [], ["kind=constants", f"base-words={len(case['base'].split('_'))}", f"names={len(case['nodes']) + 1}"]
+    files = const_files(case)
+    fnames = sorted(files)
+    cfg = {"dry": {"enabled": True, "min_duplicate_lines": 3, "min_constant_occurrences": case["min_occ"]}}
+    if case["perms"] == "all":
+        perms = [list(p) for p in itertools.permutations(fnames)]
+    else:
+        perms = []
+        for p in case["perms"]:
+            q = [fnames[i % len(fnames)] for i in p if i < len(fnames)]
+            q = list(dict.fromkeys(q))
+            perms.append(q + [n for n in fnames if n not in q])
+    seen_fail = set()
+
+    def report(entry, perm, base, got):
+        only_c, only_p = list((base - got).elements()), list((got - base).elements())
+        rules, side = classify(only_p, only_c)
+        sig = f"constants|{entry}|{rules}|{side}"
+        if sig not in seen_fail:
+            seen_fail.add(sig)
+            failures.append(Failure(sig, {"names": const_names(case), "files": files, "config": cfg, "canonical_order": fnames, "order": perm,
+                                          "only_in_canonical_order": only_c[:4], "only_in_this_order": only_p[:4]}))
+
+    with Project(files, config=cfg) as proj:
+        root = proj.root
+        base = cms(lint_call(runner.fresh_orchestrator(root), "o-files", root, fnames), root)
+        base_dry = Counter({k: n for k, n in base.items() if k[0].startswith("dry.")})
+        used = runner.fresh_orchestrator(root)
+        for perm in perms:
+            got = cms(lint_call(runner.fresh_orchestrator(root), "o-files", root, perm), root)
+            if got != base:
+                report("lint_files-order", perm, base, got)
+            again = cms(lint_call(used, "o-files", root, perm), root)  # one long-lived object sees every order in turn
+            if again != got:
+                report("lint_files-order|used-object", perm, got, again)
+            r = runner.run_cli(["dry", "--format", "json", *perm], cwd=root)
+            if r.exit not in (0, 1) or r.exception or r.swallowed:
+                failures.append(Failure("constants|cli|bad-exit", {"exit": r.exit, "stderr": r.stderr[-300:], "files": files, "order": perm}))
+            elif cms(r.violations, root) != base_dry:
+                report("cli-argument-order", perm, base_dry, cms(r.violations, root))
+        # discovery order: the same files created in another order, linted as a directory
+        for perm in (perms[len(perms) // 2], perms[-1]):
+            with Project({n: files[n] for n in perm}, config=cfg) as proj2:
+                got = cms(lint_call(runner.fresh_orchestrator(proj2.root), "o-dir", proj2.root, None), proj2.root)
+                if got != base:
+                    report("dir-creation-order", perm, base, got)
+    n_const = sum(1 for k in base.elements() if is_const_violation(k))
+    groups = {k[4].split(" Also found in")[0] for k in base if is_const_violation(k)}
+    labels.append(f"constant-violations={min(n_const, 5)}")
+    labels.append("fuzzy-group" if any(g.startswith("Similar") for g in groups) else ("exact-group" if groups else "no-group"))
+    return Case(key=h(["constants", case["base"], case["nodes"], case["assign"], case["langs"], case["min_occ"]]),
+                nontrivial=n_const >= 2 and len(perms) >= 2 and len(fnames) >= 2, labels=labels, failures=failures)
+
+
+def constant_cells():
+    """Every 3-name relation graph: (chain 0-1-2 | star 1-0-2) x op x op, one name per file; base, language layout and the
+    occurrence threshold rotate with the cell number.  All 6 file orders are linted in every cell."""
+    cells = []
+    i = 0
+    for p2 in (1, 0):
+        for op1 in CONST_OPS:
+            for op2 in CONST_OPS:
+                for b, base in enumerate(CONST_BASES):
+                    langs = [["py"], ["ts"], ["py", "ts", "py"], ["ts", "py", "ts"]][(i + b) % 4]
+                    cells.append({"kind": "constants", "base": base, "nodes": [[0, op1], [p2, op2]], "assign": [0, 1, 2], "langs": langs,
+                                  "min_occ": 3 if i % 5 == 4 else 2, "perms": "all"})
+                    i += 1
+    return cells
+
+
+@st.composite
+def constsets(draw):
+    """4-5 names in a drawn derivation tree, drawn assignment to 3-5 files (files may hold several names), drawn orders."""
+    n = draw(st.integers(4, 5))
+    nodes = [[draw(st.integers(0, i - 1)), draw(st.sampled_from(CONST_OPS))] for i in range(1, n)]
+    nfiles = draw(st.integers(3, n))
+    assign = draw(st.lists(st.integers(0, nfiles - 1), min_size=n, max_size=n))
+    langs = draw(st.lists(st.sampled_from(["py", "ts"]), min_size=1, max_size=nfiles))
+    perms = draw(st.lists(st.permutations(list(range(nfiles))), min_size=2, max_size=6))
+    return {"kind": "constants", "base": draw(st.sampled_from(CONST_BASES)), "nodes": nodes, "assign": assign, "langs": langs,
+            "min_occ": draw(st.sampled_from([2, 2, 3])), "perms": [list(p) for p in perms]}
+
+
 # ----------------------------------------------------------------------------------- side effects
 
 
@@ -378,13 +573,17 @@ def check_effects(case) -> Case:
 
 
 def check(case) -> Case:
-    return {"history": check_history, "order": check_order, "effects": check_effects}[case["kind"]](case)
+    return {"history": check_history, "order": check_order, "effects": check_effects, "constants": check_constants}[case["kind"]](case)
 
 
 def run(ctx):
     cells = effect_cells()
     done = ctx.each(ctx.my_cells(cells), check)
     ctx.stats.extra.setdefault("matrix", {})["effects: command x {sequential, parallel} + dry storage x cache options"] = {"cells": len(ctx.my_cells(cells)), "done": done}
+    ccells = constant_cells()
+    done = ctx.each(ctx.my_cells(ccells), check)
+    ctx.stats.extra["matrix"]["constants: 3-name relation graph (chain|star) x op x op x base, all 6 file orders"] = {"cells": len(ctx.my_cells(ccells)), "done": done}
+    ctx.explore(constsets(), check, max_examples=ctx.n(12, 300), salt=3)
     ctx.explore(orders(), check, max_examples=ctx.n(4, 50), salt=2)
     ctx.explore(histories(), check, max_examples=ctx.n(60, 600), salt=1)
 
